@@ -40,8 +40,8 @@ theorem List.toList_toByteArray (l : List UInt8) : l.toByteArray.toList = l := b
   simp
 
 /-- the bytes of a string given by its characters -/
-theorem B_ofList (l : List Char) : B (String.ofList l) = l.flatMap String.utf8EncodeChar := by
-  simp [B, Bytes.ofString, String.toUTF8, List.utf8Encode, List.toList_toByteArray]
+theorem B_ofList (l : List Char) : B (String.ofList l) = l.map fun c => c.toNat.toUInt8 := by
+  simp [B]
 
 theorem B_slash : B "/" = [47] := by
   have h : "/" = String.ofList ['/'] := rfl
